@@ -1016,12 +1016,14 @@ class C14(Check):
         self.base_keys = set(t['token']) | set(t['general'])
         self.builtin_order = t['order']
         w = finding['witness']['data']
-        a, _ = self.run_history(impl, w['history'])
-        b, _ = self.run_history(impl, w['same_contents_history'])
         n, v = w['name'], w['value']
+        a, _ = self.run_history(impl, w['history'])
         va = impl.verdicts(a, [(n, v)])
+        if w['check'] == 'raises':
+            return va[0][0].startswith('ERR')
+        b, _ = self.run_history(impl, w['same_contents_history'])
         vb = impl.verdicts(b, [(n, v)])
-        return va != vb
+        return list(a.profiles) == list(b.profiles) and va != vb
 
     def replay(self, ctx, data):
         impl = Impl()
